@@ -228,4 +228,8 @@ pub struct Swarm {
     pub n_ops: u32,
     pub start_s: u64,
     pub base_tx_index: u32,
+    /// whether the chain's transfer module accepts zero-amount transfers (ibc-go refuses them; varied so
+    /// that no check relies on a downstream module masking an arithmetic slip)
+    #[serde(default)]
+    pub zero_ibc_ok: bool,
 }
